@@ -29,6 +29,28 @@ DATA_DIRS = ('loose', 'packs', 'sandbox', 'duplicates')
 VICTIMS = ['add_loose', 'add_pack', 'pack_loose', 'clean', 'delete', 'repack', 'repack_pack', 'import', 'loosen']
 
 
+IO_FAULTS_BY_VICTIM = {
+    # metadata / SQL calls (they carry no pack data) each victim kind makes, with the fault kinds that apply
+    'repack': [['os.link', 'eperm'], ['os.link', 'eperm'], ['os.link', 'eio'], ['os.remove', 'eperm'], ['os.remove', 'eio'], ['os.unlink', 'eio'], ['open', 'eio'], ['sql:', 'sqlerr'], ['sql:COMMIT', 'sqlerr']],
+    'pack_loose': [['open', 'eio'], ['open', 'eperm'], ['open:x', 'eexist'], ['os.remove', 'eperm'], ['os.remove', 'eio'], ['sql:', 'sqlerr'], ['sql:COMMIT', 'sqlerr']],
+    'add_pack': [['open', 'eio'], ['open:x', 'eexist'], ['sql:', 'sqlerr'], ['sql:COMMIT', 'sqlerr']],
+    'add_loose': [['open', 'eio'], ['os.rename', 'eio'], ['os.replace', 'eio'], ['os.replace', 'eperm']],
+    'clean': [['os.remove', 'eio'], ['os.remove', 'eperm'], ['sql:', 'sqlerr']],
+    'delete': [['os.remove', 'eio'], ['os.remove', 'eperm'], ['sql:', 'sqlerr'], ['sql:COMMIT', 'sqlerr']],
+}
+IO_FAULTS_BY_VICTIM['repack_pack'] = IO_FAULTS_BY_VICTIM['repack']
+IO_FAULTS_BY_VICTIM['import'] = IO_FAULTS_BY_VICTIM['add_pack']
+IO_FAULTS_BY_VICTIM['loosen'] = IO_FAULTS_BY_VICTIM['add_loose']
+
+
+def gen_io_fault(rng, kind):
+    """C06 variant: one failing metadata / SQL call of the victim combined with power loss and a retry on the same handle."""
+    choices = IO_FAULTS_BY_VICTIM.get(kind)
+    if not choices:
+        return None
+    return list(rng.choice(choices)) + [rng.choice([1, 1, 2, 3])]
+
+
 def generate(prop, seed, tier='quick', sub='crash'):
     rng = random.Random(seed)
     pool = make_pool_specs(rng, n_small=8)
@@ -158,6 +180,9 @@ def generate(prop, seed, tier='quick', sub='crash'):
         'fresh_handle': rng.random() < 0.4,
         # C06 variant: the n-th fsync of the victim fails
         'fsync_fault': rng.randint(1, 4) if sub == 'powerloss' and rng.random() < 0.25 else None,
+        # C06 variant: one failing metadata / SQL call (no pack data carried) combined with power loss and a retry
+        # (repack is the operation that lives on link / remove / unlink: it gets the combination more often)
+        'io_fault': gen_io_fault(rng, kind) if sub == 'powerloss' and rng.random() < (0.4 if kind in ('repack', 'repack_pack') else 0.2) else None,
         # the victim's handle holds index rows written with do_commit=False (still uncommitted)
         'pending_add': pending if sub not in ('restart', 'faultcont') else None,
         'followups': followups,
@@ -590,13 +615,24 @@ def run_recorded(lib, world, side, case, pre, maybe, rng, probes, faults):
     # C06 variant: the n-th fsync of the victim fails (EIO). "Visible only after its bytes have been forced to stable
     # storage": if forcing fails, nothing may be published or removed on top of those bytes either.
     sync_fault = {'n': case.get('fsync_fault'), 'seen': 0, 'fired': None}
+    io_fault = case.get('io_fault') if not case.get('fsync_fault') else None
+    if io_fault:
+        sync_fault['n'] = io_fault[2]
 
     def fail_fsync(event):
-        if sync_fault['n'] is None or event[2] not in ('os.fsync', 'fcntl'):
+        if sync_fault['n'] is None:
+            return None
+        if io_fault:
+            if not event[2].startswith(io_fault[0]) or event[2] in ('sql:BEGIN', 'sql:ROLLBACK', 'sql:SELECT', 'sql:PRAGMA'):
+                return None
+        elif event[2] not in ('os.fsync', 'fcntl'):
             return None
         sync_fault['seen'] += 1
         if sync_fault['seen'] == sync_fault['n'] and not sync_fault['fired']:
             sync_fault['fired'] = event[3]
+            if io_fault:
+                injector = Injector(0, io_fault[1])
+                return injector(event)  # raises the exception of that fault kind
             raise OSError(errno.EIO, f'Input/output error (injected at fsync of {event[3]})')
         return None
 
@@ -616,7 +652,8 @@ def run_recorded(lib, world, side, case, pre, maybe, rng, probes, faults):
         if not (sync_fault['fired'] and raised is not None and case.get('retry_same_handle', True)):
             SIM.hooks.remove(recorder)
     if sync_fault['fired']:
-        faults['fsync-eio'] = faults.get('fsync-eio', 0) + 1
+        fname = f'powerloss+{io_fault[1]}@{io_fault[0]}' if io_fault else 'fsync-eio'
+        faults[fname] = faults.get(fname, 0) + 1
         probes['fsync_fault_raised' if raised is not None else 'fsync_fault_swallowed'] = 1
         if raised is not None and case.get('retry_same_handle', True):
             # the application retries the call on the *same* handle once the fault has cleared (the handle may still
